@@ -474,7 +474,31 @@ func mjoin(ts []mtok) string {
 }
 
 var cfgMutations = []string{"quote", "unquote", "empty", "insert-empty", "keyword", "dup-line", "del-line", "swap-lines", "uncomment",
-	"placeholder", "del-token", "dup-token", "chan-prefix", "chan-wrap", "crlf", "join-lines", "blank", "comment-out", "inject-comment", "swap-tokens"}
+	"placeholder", "del-token", "dup-token", "chan-prefix", "chan-wrap", "crlf", "join-lines", "blank", "comment-out", "inject-comment", "swap-tokens", "inject-directive", "inject-directive", "inject-family-pair", "inject-family-pair"}
+
+// families of spellings of one setting: two members of one family in one block is where shorthand /
+// block / dotted forms meet.
+var cfgInjectFamilies = [][]string{
+	{"publish.managed on", "publish.managed off", "publish.direct off", "publish.direct on", "publish off", "publish on", "publish { enabled off }", "publish { enabled on }",
+		"publish { direct off }", "publish { managed off }", "publish {\n    enabled off\n    direct on\n  }"},
+	{"queue memory", "queue sqlite", "queue { backend sqlite }", "queue { backend memory }"},
+	{"auth hmac \"raw:k\"", "auth hmac secret_ref \"S1\"", "auth hmac {\n    secret \"raw:k2\"\n  }", "auth hmac {\n    secret_ref \"S1\"\n    tolerance 1m\n  }", "auth basic \"u\" \"p\"", "auth forward \"https://auth.example/check\""},
+	{"rate_limit { rps 5 }", "rate_limit {\n    rps 2\n    burst 4\n  }"},
+	{"match { method GET }", "match @m", "match {\n    host \"h.example\"\n  }"},
+}
+
+// directive spellings that interact with each other (shorthand vs block vs dotted forms): injected into
+// blocks so that combinations the grammar generator avoids (because today's parser refuses them) are
+// still tried - a parser that starts to accept one must still round-trip it.
+var cfgInjectPool = []string{
+	"publish.managed on", "publish.managed off", "publish.direct off", "publish.direct on", "publish off", "publish on",
+	"publish { enabled off }", "publish { direct off }", "publish { managed off }", "publish {\n    enabled off\n    managed on\n  }",
+	"queue memory", "queue { backend sqlite }", "queue sqlite",
+	"auth basic \"u\" \"p\"", "auth hmac \"raw:k\"", "auth hmac secret_ref \"S1\"", "auth hmac {\n    secret \"raw:k2\"\n    tolerance 1m\n  }", "auth forward \"https://auth.example/check\"",
+	"rate_limit { rps 5 }", "rate_limit {\n    rps 2\n    burst 4\n  }", "application \"app\"", "endpoint_name \"ep\"",
+	"pull { path /pulled }", "deliver \"https://x.example/y\" { }", "match { method GET }", "match @m", "max_body 1kb", "max_headers 2kb",
+	"metrics on", "metrics { listen \":9900\" }", "tracing off", "egress { https_only off }", "listen :9999", "prefix /pfx", "auth token \"raw:tok\"",
+}
 
 // mutate applies one mutation; env receives variables for introduced placeholders.
 func cfgMutate(t *rapid.T, src string, env map[string]string, step int) (string, string) {
@@ -640,6 +664,45 @@ func cfgMutate(t *rapid.T, src string, env map[string]string, step int) (string,
 		}
 	case "crlf":
 		return strings.ReplaceAll(src, "\n", "\r\n"), kind
+	case "inject-family-pair":
+		var opens []int
+		for i, ln := range lines {
+			if strings.HasSuffix(strings.TrimSpace(ln), "{") {
+				opens = append(opens, i)
+			}
+		}
+		if k := idx(len(opens), "at"); k >= 0 {
+			fam := cfgInjectFamilies[rapid.IntRange(0, len(cfgInjectFamilies)-1).Draw(t, "family")]
+			a := fam[rapid.IntRange(0, len(fam)-1).Draw(t, "a")]
+			b := fam[rapid.IntRange(0, len(fam)-1).Draw(t, "b")]
+			pos := opens[k] + 1
+			lines = append(lines[:pos], append([]string{"  " + a, "  " + b}, lines[pos:]...)...)
+			return strings.Join(lines, "\n"), kind
+		}
+	case "inject-directive":
+		var opens []int
+		for i, ln := range lines {
+			if strings.HasSuffix(strings.TrimSpace(ln), "{") {
+				opens = append(opens, i)
+			}
+		}
+		if k := idx(len(opens), "at"); k >= 0 {
+			d := rapid.SampledFrom(cfgInjectPool).Draw(t, "directive")
+			pos := opens[k] + 1
+			if rapid.Bool().Draw(t, "at-end") {
+				// before the matching close of that block: scan forward for the line that closes it
+				depth := 0
+				for j := opens[k]; j < len(lines); j++ {
+					depth += strings.Count(lines[j], "{") - strings.Count(lines[j], "}")
+					if depth <= 0 && j > opens[k] {
+						pos = j
+						break
+					}
+				}
+			}
+			lines = append(lines[:pos], append([]string{"  " + d}, lines[pos:]...)...)
+			return strings.Join(lines, "\n"), kind
+		}
 	}
 	return src, "noop"
 }
